@@ -356,11 +356,12 @@ func runC17(c *core.Ctx) {
 		runCanary(c, canary)
 		return
 	}
-	if c.Index%7 == 6 {
+	if c.Index%8 == 7 { // 8 and 21 are coprime: every kind still gets its share of the other cases
 		runC17Deep(c)
 		return
 	}
 	kind := dynKinds[c.Index%len(dynKinds)]
+	c.Count("c17-kind:"+kind, 1)
 	// documented constructor preconditions: exercised, allowed to panic
 	if c.Index%50 == 0 {
 		expectPanic(c, "CircularBuffer", "New", func() { circularbuffer.New[int](-r.Intn(2)) })
@@ -502,6 +503,11 @@ func init() {
 			}
 			if n < 300 {
 				missing = append(missing, fmt.Sprintf("only %d exported methods were enumerated (< 300)", n))
+			}
+			for _, k := range dynKinds {
+				if m["c17-kind:"+k] < 100 {
+					missing = append(missing, fmt.Sprintf("container kind %s was driven in only %d cases (< 100)", k, m["c17-kind:"+k]))
+				}
 			}
 			if len(missing) > 12 {
 				missing = append(missing[:12], "…")
